@@ -166,15 +166,24 @@ CHECKS = {
  },
  "C10": {
   "title": "Declaration order is free",
-  "harnesses": [doc("VerifH_OrderTopLevel", {"K": 3, "MENU": 0}, {"K": 4, "MENU": 0}), doc("VerifH_OrderTopLevel", {"K": 3, "MENU": 1}, {"K": 4, "MENU": 1})],
+  "harnesses": [doc("VerifH_OrderTopLevel", {"K": 3, "MENU": 0}, {"K": 4, "MENU": 0}), doc("VerifH_OrderTopLevel", {"K": 3, "MENU": 1}, {"K": 4, "MENU": 1}),
+                doc("VerifH_AllOfOrder", {}, {})],
   "assumptions": DOC_ASSUME + ["permutation = swap of two adjacent top-level blocks (generates all permutations), kept only when every line keeps its parent under the C06 reference resolver; the JSIGHT header stays first"],
-  "not_decided": DOC_NOT + ["order effects inside the schema library (lazy loading of rules / types): the library is not encoded", "allOf inheritance order (harness pending)"],
+  "not_decided": DOC_NOT + ["order effects inside the schema library (lazy loading of rules / types): the library is not encoded", "declaration-order effects through more than three types"],
  },
  "C11": {
   "title": "Static checks are sound",
   "harnesses": [doc("VerifH_StaticChecks", {"K": 3}, {"K": 4})],
   "assumptions": DOC_ASSUME + ["fault predicates (refFaults): duplicate TYPE / SERVER / TAG name, same URL path twice, same method on the same path twice, second Title / Version / Description / Protocol / BaseUrl under one parent, Tags naming a tag no TAG directive declares (when some method uses that Tags directive)"],
   "not_decided": DOC_NOT + ["dangling type / enum references inside schema bodies", "faults injected through INCLUDE", "required-parameter faults (the templates always carry their parameters)", "paths differing only in a parameter name"],
+ },
+ "C12": {
+  "title": "allOf inheritance",
+  "harnesses": [doc("VerifH_AllOf", {}, {})],
+  "assumptions": ["catalog-struct level: three user types @a @b @c built directly as catalog structs (object schemas whose properties are string scalars, an allOf rule of reference items), own key sets from {}, {x}, {y|z}, {x, y|z}, every acyclic inheritance graph in which a type names only later types as bases (0, 1 or 2 bases, both orders), all 6 insertion orders",
+                  "initial UsedUserTypes of a schema = its direct allOf bases (what the AST conversion records)",
+                  "a key inherited through two bases may be taken from either (the statement says 'exactly once'); same-base properties must keep the base's order and bases must appear in the order named"],
+  "not_decided": ["that the schema library's AST is converted into catalog structs of the assumed shape", "allOf inside nested objects, request / response / header / query / path schemas (same function, other call sites)", "cyclic allOf (rejected by the schema library)", "more than three types"],
  },
  "C13": {
   "title": "Path parameters",
